@@ -150,6 +150,15 @@ ASMJIT_FAVOR_SIZE Error EmitHelper::emit_reg_move(
         dst.set_signature(Reg::signature_of_t<RegType::kGp32>());
         src.set_signature(Reg::signature_of_t<RegType::kGp32>());
       }
+      else if ((mem_flags & kDstMem) && src.is_reg()) {
+        // Store only the bytes of the value - the 8-bit view of SP/BP/SI/DI doesn't exist in 32-bit mode, the store
+        // stays 32-bit wide in that case.
+        uint32_t size = TypeUtils::size_of(type_id);
+        if (size == 2 || _emitter->environment().is_64bit() || src.as<Reg>().id() < 4) {
+          src.set_signature(reg_size_to_gp_signature_table[size]);
+          dst.as<Mem>().set_size(size);
+        }
+      }
       [[fallthrough]];
 
     case TypeId::kInt32:
